@@ -7,6 +7,19 @@ from concurrent.futures import ThreadPoolExecutor
 V = os.path.dirname(os.path.dirname(os.path.abspath(__file__)))
 ALL = [c["property_id"] for c in json.load(open(os.path.join(V, "MANIFEST.json")))["checks"]]
 
+CHECK_TIMEOUT = 1200      # seconds per check: a runaway analysis is reported, not waited for
+
+
+def _run_check(cmd, **kw):
+    try:
+        return subprocess.run(cmd, **kw)
+    except subprocess.TimeoutExpired:
+        class _R:
+            returncode = 124
+            stdout = "ANALYSIS-BROKEN: the check did not finish within %d s\n" % CHECK_TIMEOUT
+            stderr = ""
+        return _R()
+
 
 def one(patch):
     tmp = tempfile.mkdtemp(prefix="fsvneut.", dir="/var/tmp")
@@ -20,7 +33,7 @@ def one(patch):
                    FSVERIF_EVIDENCE=os.path.join(tmp, "evidence"))
         res = {}
         for c in ALL:
-            r = subprocess.run([os.path.join(V, "check"), c], capture_output=True, text=True, env=env, cwd=V)
+            r = _run_check([os.path.join(V, "check"), c], capture_output=True, text=True, env=env, cwd=V, timeout=CHECK_TIMEOUT)
             if r.returncode != 0:
                 first = [l for l in (r.stdout + r.stderr).splitlines() if l.startswith("  rule") or "ANALYSIS" in l or "Error" in l or "error" in l]
                 res[c] = (r.returncode, first[0][:300] if first else (r.stdout + r.stderr)[-300:])
